@@ -280,6 +280,7 @@ pub fn plan_sig(plan: &Plan) -> u64 {
             (FaultAt::ClientByte(k), _) => 400 + k * 16,
             (FaultAt::Read(k), _) => 500 + k * 16,
             (FaultAt::Flush(k), _) => 600 + k * 16,
+            (FaultAt::TlsCleanClose(k), _) => 700 + k * 16,
         } ^ ((f.persistent as u64) << 60));
     }
     parts.push(plan.mutations.len() as u64 ^ ((plan.raw_client.as_ref().map(|b| b.len()).unwrap_or(0) as u64) << 8));
@@ -829,87 +830,114 @@ fn shrink_blob(b: &Blob) -> Vec<Blob> {
     out
 }
 
-fn candidates(plan: &Plan) -> Vec<Plan> {
-    let mut c = Vec::new();
+/// Collector of minimisation candidates that materialises (clones + edits) only a window of
+/// them: plans can be large (100 000 rows, thousands of commands), and one clone per possible
+/// edit would need memory quadratic in the plan size.
+struct Cands {
+    skip: usize,
+    cap: usize,
+    seen: usize,
+    out: Vec<Plan>,
+}
+
+impl Cands {
+    fn add(&mut self, plan: &Plan, edit: impl FnOnce(&mut Plan)) {
+        if self.seen >= self.skip && self.out.len() < self.cap {
+            let mut p = plan.clone();
+            edit(&mut p);
+            self.out.push(p);
+        }
+        self.seen += 1;
+    }
+}
+
+/// candidates number `skip .. skip + cap` (in a fixed order: big simplifications first)
+fn candidates(plan: &Plan, skip: usize, cap: usize) -> Vec<Plan> {
+    let mut c = Cands {
+        skip,
+        cap,
+        seen: 0,
+        out: Vec::new(),
+    };
     // schedules first: they make everything else cheaper to read
     if plan.reads != ReadSched::all() {
-        let mut p = plan.clone();
+        c.add(plan, |p: &mut Plan| {
         p.reads = ReadSched::all();
-        c.push(p);
+        });
         if !plan.reads.cuts.is_empty() {
-            let mut p = plan.clone();
+            c.add(plan, |p: &mut Plan| {
             p.reads.cuts.clear();
-            c.push(p);
+            });
             if plan.reads.cuts.len() > 1 {
                 for i in 0..plan.reads.cuts.len().min(24) {
-                    let mut p = plan.clone();
+                    c.add(plan, |p: &mut Plan| {
                     p.reads.cuts.remove(i);
-                    c.push(p);
+                    });
                 }
             }
         }
         if !plan.reads.explicit.is_empty() {
-            let mut p = plan.clone();
+            c.add(plan, |p: &mut Plan| {
             p.reads.explicit.clear();
-            c.push(p);
+            });
         }
         if plan.reads.tail != Tail::All {
-            let mut p = plan.clone();
+            c.add(plan, |p: &mut Plan| {
             p.reads.tail = Tail::All;
-            c.push(p);
-            let mut p = plan.clone();
+            });
+            c.add(plan, |p: &mut Plan| {
             p.reads.tail = Tail::Fixed(1);
-            c.push(p);
+            });
         }
     }
     if plan.arrival != Arrival::upfront() {
-        let mut p = plan.clone();
+        c.add(plan, |p: &mut Plan| {
         p.arrival = Arrival::upfront();
-        c.push(p);
-        let mut p = plan.clone();
+        });
+        c.add(plan, |p: &mut Plan| {
         p.arrival = Arrival::lockstep();
-        c.push(p);
+        });
     }
     if plan.writes != WriteSched::all() {
-        let mut p = plan.clone();
+        c.add(plan, |p: &mut Plan| {
         p.writes = WriteSched::all();
-        c.push(p);
+        });
         if !plan.writes.eintr_at.is_empty() {
-            let mut p = plan.clone();
+            c.add(plan, |p: &mut Plan| {
             p.writes.eintr_at.clear();
-            c.push(p);
+            });
         }
     }
     for i in 0..plan.faults.len() {
-        let mut p = plan.clone();
+        c.add(plan, |p: &mut Plan| {
         p.faults.remove(i);
-        c.push(p);
+        });
     }
     for i in 0..plan.mutations.len() {
-        let mut p = plan.clone();
+        c.add(plan, |p: &mut Plan| {
         p.mutations.remove(i);
-        c.push(p);
+        });
     }
     // commands: tail first, then each
     let n = plan.cmds.len();
     if n > 1 {
-        let mut p = plan.clone();
+        c.add(plan, |p: &mut Plan| {
         p.cmds.truncate(n / 2);
-        c.push(p);
-        let mut p = plan.clone();
+        });
+        c.add(plan, |p: &mut Plan| {
         p.cmds.drain(0..n / 2);
-        c.push(p);
+        });
     }
     for i in (0..n).rev() {
-        let mut p = plan.clone();
+        c.add(plan, |p: &mut Plan| {
         p.cmds.remove(i);
-        c.push(p);
+        });
     }
     for (i, cmd) in plan.cmds.iter().enumerate() {
         if cmd.seq != 0 {
-            let mut p = plan.clone();
+            c.add(plan, |p: &mut Plan| {
             p.cmds[i].seq = 0;
-            c.push(p);
+            });
         }
         // payload shrinking
         let blob = match &cmd.kind {
@@ -923,39 +951,57 @@ fn candidates(plan: &Plan) -> Vec<Plan> {
                     if matches!(cmd.kind, CmdKind::Query(_) | CmdKind::Prepare(_)) && nb.is_empty() {
                         continue;
                     }
-                    let mut p = plan.clone();
+                    c.add(plan, |p: &mut Plan| {
                     match &mut p.cmds[i].kind {
                         CmdKind::Query(x) | CmdKind::Prepare(x) | CmdKind::InitDb(x) | CmdKind::FieldList(x) | CmdKind::Raw(x) => *x = nb,
                         CmdKind::LongData { data, .. } => *data = nb,
                         _ => {}
                     }
-                    c.push(p);
+                    });
                 }
             }
         }
         if let Act::Program(prog) = &cmd.act {
             for ui in 0..prog.units.len() {
                 if prog.units.len() > 1 {
-                    let mut p = plan.clone();
+                    c.add(plan, |p: &mut Plan| {
                     if let Act::Program(pp) = &mut p.cmds[i].act {
                         pp.units.remove(ui);
                         fix_program(pp);
                     }
-                    c.push(p);
+                    });
                 }
                 if let Unit::Rows(ru) = &prog.units[ui] {
+                    // many rows: halves first (a 100 000-row plan shrinks in ~17 steps)
+                    if ru.rows.len() > 6 {
+                        let h = ru.rows.len() / 2;
+                        c.add(plan, |p: &mut Plan| {
+                            if let Act::Program(pp) = &mut p.cmds[i].act {
+                                if let Unit::Rows(r2) = &mut pp.units[ui] {
+                                    r2.rows.truncate(h);
+                                }
+                            }
+                        });
+                        c.add(plan, |p: &mut Plan| {
+                            if let Act::Program(pp) = &mut p.cmds[i].act {
+                                if let Unit::Rows(r2) = &mut pp.units[ui] {
+                                    r2.rows.drain(0..h);
+                                }
+                            }
+                        });
+                    }
                     for ri in (0..ru.rows.len()).rev() {
-                        let mut p = plan.clone();
+                        c.add(plan, |p: &mut Plan| {
                         if let Act::Program(pp) = &mut p.cmds[i].act {
                             if let Unit::Rows(r2) = &mut pp.units[ui] {
                                 r2.rows.remove(ri);
                             }
                         }
-                        c.push(p);
+                        });
                     }
                     if ru.cols.len() > 1 {
                         for ci in (0..ru.cols.len()).rev() {
-                            let mut p = plan.clone();
+                            c.add(plan, |p: &mut Plan| {
                             if let Act::Program(pp) = &mut p.cmds[i].act {
                                 if let Unit::Rows(r2) = &mut pp.units[ui] {
                                     r2.cols.remove(ci);
@@ -966,20 +1012,20 @@ fn candidates(plan: &Plan) -> Vec<Plan> {
                                     }
                                 }
                             }
-                            c.push(p);
+                            });
                         }
                     }
                     // shrink names
                     for (ci, col) in ru.cols.iter().enumerate() {
                         if col.table.len() > 1 || col.name.len() > 1 {
-                            let mut p = plan.clone();
+                            c.add(plan, |p: &mut Plan| {
                             if let Act::Program(pp) = &mut p.cmds[i].act {
                                 if let Unit::Rows(r2) = &mut pp.units[ui] {
                                     r2.cols[ci].table = Blob::lit(b"t");
                                     r2.cols[ci].name = Blob::lit(b"c");
                                 }
                             }
-                            c.push(p);
+                            });
                         }
                     }
                 }
@@ -991,16 +1037,16 @@ fn candidates(plan: &Plan) -> Vec<Plan> {
     }
     if let HsBody::V41 { user, tail, .. } = &plan.handshake.body {
         if user != b"u" || tail != &vec![0u8] {
-            let mut p = plan.clone();
+            c.add(plan, |p: &mut Plan| {
             if let HsBody::V41 { user, tail, caps, .. } = &mut p.handshake.body {
                 *user = b"u".to_vec();
                 *tail = vec![0];
                 *caps = (*caps & CLIENT_SSL) | 0x000F_A685 & !CLIENT_SSL | (*caps & CLIENT_SSL);
             }
-            c.push(p);
+            });
         }
     }
-    c
+    c.out
 }
 
 fn fix_program(p: &mut Program) {
@@ -1029,25 +1075,31 @@ pub fn minimise(check: &dyn Check, known: &Known, plan: &Plan, sig: &Signature) 
     let mut best = plan.clone();
     let mut tried = 0u32;
     let start = Instant::now();
-    loop {
-        let mut improved = false;
-        for cand in candidates(&best) {
-            if tried >= 2000 || start.elapsed().as_secs() >= 20 {
+    const WINDOW: usize = 24;
+    'outer: loop {
+        let mut skip = 0;
+        loop {
+            let batch = candidates(&best, skip, WINDOW);
+            if batch.is_empty() {
+                // every candidate of the current plan was tried: done
                 return (best, tried);
             }
-            if cand == best {
-                // a "simplification" that is already in place is no progress
-                continue;
+            let n = batch.len();
+            for cand in batch {
+                if tried >= 2000 || start.elapsed().as_secs() >= 30 {
+                    return (best, tried);
+                }
+                if cand == best {
+                    // a "simplification" that is already in place is no progress
+                    continue;
+                }
+                tried += 1;
+                if fails_with(check, known, &cand, sig) {
+                    best = cand;
+                    continue 'outer;
+                }
             }
-            tried += 1;
-            if fails_with(check, known, &cand, sig) {
-                best = cand;
-                improved = true;
-                break;
-            }
-        }
-        if !improved {
-            return (best, tried);
+            skip += n;
         }
     }
 }
